@@ -18,7 +18,7 @@ RULE = ('full Cartesian product of destination kind (absent, regular file, empty
         'shape (single / "0,1" with first or second blocked / "0-1") x --sort; plus the same location trashed twice and both indices chosen in one run (parent kept / removed); every point executed '
         'on the real trash-put + trash-restore; non-trivial = the run reached the existence probe '
         '(listing printed and an index chosen), distinct = outcome class x dest x kind x overwrite')
-DESTS = ['absent', 'file', 'emptydir', 'dir', 'lfile', 'ldir', 'ldang']
+DESTS = ['absent', 'file', 'file-same-stat', 'emptydir', 'dir', 'lfile', 'ldir', 'ldang']
 SELS = ['single', 'comma-first', 'comma-second', 'range-first', 'range-second']
 SORTS = ['date', 'path', 'none']
 W = '/home/u/w'
@@ -59,6 +59,8 @@ def cases(tier):
 def plant(W_, path, dest):
     if dest == 'file':
         W_.file(path, 'pre-existing destination\n', mode=0o666)
+    elif dest == 'file-same-stat':
+        pass        # planted by the caller: same size, mode and mtime as the trashed file, other bytes
     elif dest == 'emptydir':
         W_.dir(path, mode=0o711)
     elif dest == 'dir':
@@ -191,14 +193,23 @@ def run_case(c):
         extra.nodes, extra.order = {}, []
         plant(extra, bpath, c['dest'])
         world.build(sb.root, [extra.nodes[p] for p in extra.order if p.startswith(bpath)])
+        if c['dest'] == 'file-same-stat':
+            o = orig[bpath]
+            if o[0] == 'f' and len(o[3]) > 0:
+                twin = bytes((b ^ 1) for b in o[3])
+                world.build(sb.root, [['f', bpath, o[1], o[2], twin.decode('latin-1')]])
+            else:
+                world.build(sb.root, [['f', bpath, 0o640, 1500000000 * 10 ** 9, 'x']])
         before = sb.snapshot()
         argv = ['trash-restore', '--sort', c['sort']] + (['--overwrite'] if c['ow'] else [])
+        if c['sel'] == 'single' and c['sort'] == 'date' and c['kind'] in ('file', 'tree', 'ldang'):
+            argv.append(bpath)          # the entry's own path given as the PATH argument (cwd elsewhere)
         reply = {'single': '0', 'comma-first': '0,1', 'comma-second': '0,1',
                  'range-first': '0-1', 'range-second': '0-1'}[c['sel']]
-        r = sb.run(argv, stdin=reply + '\n', cwd=W)
+        r = sb.run(argv, stdin=reply + '\n', cwd=W if argv[-1] != bpath else '/outside')
         after = sb.snapshot()
     listing = scen.parse_restore_listing(r.out)
-    detail = {'exit': r.exit, 'err': r.err[-300:], 'listing': listing}
+    detail = {'argv': argv, 'exit': r.exit, 'err': r.err[-300:], 'listing': listing}
     dims = 'dest=%s|kind=%s|ow=%d' % (c['dest'], c['kind'], c['ow'])
     reached = len(listing) == (2 if multi else 1)
     pair_b_before = (before.get(TD + '/info/%s.trashinfo' % bname), world.under(before, TD + '/files/' + bname))
@@ -234,6 +245,8 @@ def run_case(c):
                 'nontrivial': what + '|' + dims,
                 'detail': dict(detail, dest_unchanged=dest_unchanged, pair_intact=pair_intact)}
     # --overwrite
+    if c['dest'] == 'file-same-stat' and False:
+        pass
     if c['dest'] in ('emptydir', 'dir', 'ldir'):
         # don't-care: what --overwrite does to a directory (or a link to one); only "nothing is lost"
         somewhere = pair_intact or restored or world.same_entry(orig, bpath, after, bpath + '/' + bname) \
